@@ -658,6 +658,65 @@ def audit5_cases(chk):
         except (prophy.ProphyError, AttributeError):
             if len(h.items) or len(h.us):
                 violation('hand-written I{u8 x}; H{u8 n; I items<@n>; U us<@n>}', how, 'a rejected add() left an element in the array')
+    # D192: a struct with a field named discriminator; the limit is checked after the values were computed; counters and arrays
+    # of messages given as keywords are refused with ProphyError
+    Sd = type(sb)('Sd5', (sb,), {'_descriptor': [('discriminator', prophy.u8), ('b', prophy.u8)]})
+    Xd = type(sb)('Xd5', (sb,), {'_descriptor': [('n', prophy.u8), ('ss', prophy.array(Sd, bound='n'))]})
+    case(('add-keyword', 'field named discriminator'))
+    xd = Xd()
+    try:
+        xd.ss.add(discriminator=3, b=4)
+        if str(xd) != 'ss {\n  discriminator: 3\n  b: 4\n}\n':
+            violation('hand-written S{u8 discriminator; u8 b}; X{u8 n; S ss<@n>}', 'ss.add(discriminator=3, b=4)', 'the fields are not set', state=str(xd))
+    except Exception as ex:  # noqa
+        violation('hand-written S{u8 discriminator; u8 b}; X{u8 n; S ss<@n>}', 'ss.add(discriminator=3, b=4)', 'refused: %s' % py_impl.exc_class(ex))
+    E2 = type(sb)('E25', (sb,), {'_descriptor': [('xs', prophy.array(prophy.u8, size=2))]})
+    L2 = type(sb)('L25', (sb,), {'_descriptor': [('n', prophy.u8), ('items', prophy.array(E2, bound='n', size=2))]})
+    case(('add-keyword', 'values computed by code that adds to the array'))
+    l2 = L2()
+    l2.items.add()
+
+    def sneaky():
+        l2.items.add()
+        yield 1
+        yield 2
+    try:
+        l2.items.add(xs=sneaky())
+    except prophy.ProphyError:
+        pass
+    try:
+        ok = len(l2.items) <= 2 and L2().decode(l2.encode('<'), '<') == len(l2.encode('<'))
+    except Exception:  # noqa
+        ok = False
+    if not ok:
+        violation('hand-written E{u8 xs[2]}; L{u8 n; E items<2>@n}', 'items.add(); items.add(xs=<generator that calls items.add()>)',
+                  'the array holds %d elements, its limit is 2 (or its own encoding is refused)' % len(l2.items))
+    K = type(sb)('K5', (sb,), {'_descriptor': [('n', prophy.u8), ('bs', prophy.array(prophy.u8, bound='n')), ('fix', prophy.array(I, size=2)),
+                                              ('dyn', prophy.array(I, bound='n'))]})
+    Hk = type(sb)('Hk5', (sb,), {'_descriptor': [('m', prophy.u8), ('ks', prophy.array(K, bound='m'))]})
+    for how, kw in (('ks.add(n=1)', {'n': 1}), ('ks.add(fix=[I(), I()])', {'fix': [I(), I()]}), ('ks.add(dyn=[])', {'dyn': []})):
+        case(('add-keyword', how))
+        hk = Hk()
+        try:
+            hk.ks.add(**kw)
+        except prophy.ProphyError:
+            if len(hk.ks):
+                violation('hand-written K{u8 n; u8 bs<@n>; I fix[2]; I dyn<@n>}', how, 'a rejected add() left an element')
+        except Exception as ex:  # noqa
+            violation('hand-written K{u8 n; u8 bs<@n>; I fix[2]; I dyn<@n>}', how, 'rejected with %s instead of ProphyError' % py_impl.exc_class(ex))
+    # D192: an index beyond the machine word is an index beyond the ends
+    case(('insert', 'huge index'))
+    a5 = A()
+    a5.a[:] = [1, 2]
+    for idx, want in ((2 ** 64, [1, 2, 5]), (-2 ** 64, [5, 1, 2, 5]), (2 ** 62, [5, 1, 2, 5, 5])):
+        try:
+            a5.a.insert(idx, 5)
+        except Exception as ex:  # noqa
+            violation('hand-written A{u8 n; u16 a<@n>; u16 b[4]}', 'a.insert(%d, 5)' % idx, 'raised %s (any other index beyond the ends is clamped)' % py_impl.exc_class(ex))
+            break
+        if list(a5.a) != want:
+            violation('hand-written A{u8 n; u16 a<@n>; u16 b[4]}', 'a.insert(%d, 5)' % idx, 'the array is %r, a list gives %r' % (list(a5.a), want))
+            break
     h = H()
     h.us.add(discriminator=1, b=7)
     h.items.add(x=5)
